@@ -486,6 +486,14 @@ class SCFG(Sized):
             The basic_block parameter represents the block to be added.
         """
         self.graph[basic_block.name] = basic_block
+        # Region blocks are frozen and get replaced whenever they are
+        # re-targeted. Keep the back-reference of the sub-graph pointing at
+        # the block that currently represents it.
+        if (
+            isinstance(basic_block, RegionBlock)
+            and basic_block.subregion is not None
+        ):
+            object.__setattr__(basic_block.subregion, "region", basic_block)
 
     def remove_blocks(self, names: Set[str]) -> None:
         """Removes a BasicBlock object from the control flow graph.
